@@ -963,6 +963,12 @@ func (c *checker) evaluate(cfg *config, al []*val, leaves []leaf, each func(k in
 				dead[k] = true
 			}
 		}
+		// the collected data now belongs to the consumer: overwrite every slice it can reach, then
+		// collect alternately into the same (scribbled) and into a fresh ResourceMetrics
+		vScribble(&rm)
+		if step%2 == 1 {
+			rm = metricdata.ResourceMetrics{}
+		}
 	}
 	finish()
 }
